@@ -33,6 +33,10 @@ struct FutSlot {
 }
 
 struct RingWorker {
+    /// `Ring::poll(None)`
+    inf: bool,
+    /// futures that were registered for a slot when the call started
+    registered_at_start: Vec<usize>,
     tid: usize,
     /// 0 = before the kernel entry, 1 = after it (inside wake_blocked_futures), 2 = past it
     phase: u32,
@@ -234,6 +238,8 @@ impl BlkCase {
                             let n = simk::with_ring(self.rfd, |r, _| r.sq_pending());
                             Some(format!("at-enter/{n}"))
                         }
+                        // inside io_uring_enter, waiting for a completion (a call without timeout)
+                        (sched::SYS_BLOCKED, 1) => Some("waiting".to_string()),
                         (sched::LOAD_SHARED, 1) => {
                             rw.loads += 1;
                             match rw.loads {
@@ -251,6 +257,16 @@ impl BlkCase {
                         _ => None,
                     };
                     if let Some(l) = label {
+                        if l == "at-w-ld-head" && rw.inf && rw.label.starts_with("at-enter") && !rw.registered_at_start.is_empty() {
+                            self.feats.push("poll-without-timeout-did-not-wait".into());
+                        }
+                        if l == "waiting" && rw.label != "waiting" {
+                            self.feats.push("poll-waits-in-kernel".into());
+                            let still: Vec<usize> = rw.registered_at_start.iter().copied().filter(|i| self.registered[*i]).collect();
+                            if !still.is_empty() {
+                                self.oracle.push(("C03".into(), "C03/blocked-while-poll-waits".into(), format!("a Ring::poll without timeout waits in the kernel for a completion although futures {still:?} were already waiting for a submission slot when the call started; the call itself made room, nothing completes, so they are never woken")));
+                            }
+                        }
                         rw.label = l;
                         self.collect_wakes();
                         self.rw = Some(rw);
@@ -330,13 +346,16 @@ impl Case for BlkCase {
         }
         let w_f = if mid.is_empty() { 0 } else { 10 };
         let w_poll = if self.rw.is_none() { 5 } else { 0 };
+        if self.rw.as_ref().is_some_and(|r| r.label == "waiting") && (mid.is_empty() || rng.chance(1, 4)) {
+            return Some("blk io".into());
+        }
         let w_r = if self.rw.is_some() { 8 } else { 0 };
         let w_re = if woken_blocked.is_empty() { 0 } else { 6 };
         let w_spur = if blocked.is_empty() || !rng.chance(1, 10) { 0 } else { 1 };
         let w_bad = if rng.chance(1, 40) { 1 } else { 0 };
         match rng.weighted(&[w_f, w_poll, w_r, w_re, w_spur, w_bad]) {
             0 => Some(format!("blk f {}", rng.pick(&mid))),
-            1 => Some("blk poll".into()),
+            1 => Some(if rng.chance(1, 3) { "blk pollinf".to_string() } else { "blk poll".to_string() }),
             2 => Some("blk r".into()),
             3 => Some(format!("blk repoll {}", rng.pick(&woken_blocked))),
             4 => Some(format!("blk repoll {}", rng.pick(&blocked))),
@@ -369,19 +388,34 @@ impl Case for BlkCase {
                 self.collect_wakes();
                 format!("f{i} {} {}", self.futs[i].label, self.state())
             }
-            ["blk", "poll"] => {
+            ["blk", which @ ("poll" | "pollinf")] => {
                 if self.rw.is_some() {
                     return vec!["bad-op".into()];
                 }
+                let inf = *which == "pollinf";
                 let ring = self.ring.clone();
                 let tid = sched::spawn(move || {
                     let mut r = lockp(&ring).take().expect("ring in use");
-                    let _ = r.poll(Some(Duration::ZERO));
+                    let _ = r.poll(if inf { None } else { Some(Duration::ZERO) });
                     *lockp(&ring) = Some(r);
                     String::new()
                 });
-                self.rw = Some(RingWorker { tid, phase: 0, loads: 0, label: "start".into() });
+                let registered_at_start = (0..self.registered.len()).filter(|i| self.registered[*i]).collect();
+                if inf {
+                    self.feats.push("poll-without-timeout".into());
+                }
+                self.rw = Some(RingWorker { inf, registered_at_start, tid, phase: 0, loads: 0, label: "start".into() });
                 format!("r start {}", self.state())
+            }
+            ["blk", "io"] => {
+                // some completion arrives (nobody's: user_data 0): a waiting io_uring_enter returns
+                if !self.rw.as_ref().is_some_and(|r| r.label == "waiting") {
+                    return vec!["bad-op".into()];
+                }
+                simk::with_ring(self.rfd, |r, ev| r.post_raw(None, simk::Cqe { user_data: 0, res: 0, flags: 0 }, ev));
+                self.advance_r();
+                let label = self.rw.as_ref().map(|r| r.label.clone()).unwrap_or_else(|| "idle".into());
+                format!("r {label} {}", self.state())
             }
             ["blk", "r"] => {
                 if self.rw.is_none() {
@@ -425,6 +459,9 @@ impl Case for BlkCase {
             }
             for i in mid {
                 self.advance_f(i, true);
+            }
+            if self.rw.as_ref().is_some_and(|r| r.label == "waiting") {
+                simk::with_ring(self.rfd, |r, ev| r.post_raw(None, simk::Cqe { user_data: 0, res: 0, flags: 0 }, ev));
             }
             if self.rw.is_some() {
                 self.advance_r();
@@ -479,7 +516,7 @@ impl Comp for BlkComp {
         "blk"
     }
     fn rule(&self) -> String {
-        "each case = 2..6 real operations polled by worker threads on a submission queue of 1/2/4 entries plus a ring thread calling Ring::poll(Some(0)), nothing ever completes; random schedules of ≤ 120 steps at the queue-word loads, the submission and blocked-list locks and the kernel entry, with woken futures re-polled (and occasional spurious re-polls); non-trivial = at least one future found the queue full and registered for a slot; distinct = distinct schedules".into()
+        "each case = 2..6 real operations polled by worker threads on a submission queue of 1/2/4 entries plus a ring thread calling Ring::poll(Some(0)) or Ring::poll(None) (which really waits in the simulated kernel until an unrelated completion is posted), no operation ever completes; random schedules of ≤ 120 steps at the queue-word loads, the submission and blocked-list locks and the kernel entry, with woken futures re-polled (and occasional spurious re-polls); non-trivial = at least one future found the queue full and registered for a slot; distinct = distinct schedules".into()
     }
     fn gen_header(&mut self, rng: &mut Rng, id: u64, _tier: &str) -> String {
         if rng.chance(1, 60) {
